@@ -13,12 +13,16 @@ from .core import HarnessError
 class ToolSim(simmod.Sim):
     """A Sim without a pre-parsed scenario: the tools parse their own graphs."""
 
+    RAISABLE = {"RuntimeError": RuntimeError, "OSError": OSError, "KeyError": KeyError, "TypeError": TypeError,
+                "TimeoutError": asyncio.TimeoutError, "ConnectionError": ConnectionRefusedError}
+
     def __init__(self, pools=None, durations=None, outcomes=None, scratch=None, fail=None, raise_for=None,
-                 test_timeout=10):
+                 test_timeout=10, raise_type="RuntimeError"):
         super().__init__(None, run_params={"test_timeout": test_timeout}, pools=pools, durations=durations,
                          outcomes=outcomes, scratch=scratch)
         self.fail = fail or {}            # uid prefix (step tag) -> status for all its executions
         self.raise_for = raise_for        # uid prefix whose first execution raises
+        self.raise_type = self.RAISABLE[raise_type]
         self.jobs = []
         self.raised = 0
         # the tools are judged on what they execute, not on the states: a missing state does not abort a test
@@ -68,7 +72,7 @@ def session(tool_sim):
             tool_sim.raised += 1
             tool_sim.log("raise", worker=node.started_worker.id if node.started_worker else None, uid=uid,
                          name=node.params["name"])
-            raise RuntimeError("injected failure of the test runner")
+            raise tool_sim.raise_type("injected failure of the test runner")
         return await original_task(runner, node)
 
     simmod.CURRENT = tool_sim
